@@ -82,3 +82,26 @@ func VH_C20_json_magic() {
 	zzvrt.Cover("eight-digits", v >= 0x10000000)
 	zzvrt.ObserveU64("y", uint64(y))
 }
+
+// MsgAddress text form of a standard address "<workchain>:<64 hex>": EVERY workchain -128..127
+// (symbolic), a fixed account part with one symbolic byte; the text parses back to the same AddrStd.
+func VH_C20_json_addrstd() {
+	var a MsgAddress
+	a.SumType = "AddrStd"
+	a.AddrStd.WorkchainId = int8(zzvrt.NondetByte("wc"))
+	for i := 0; i < 32; i++ {
+		a.AddrStd.Address[i] = byte(0x1f + 7*i)
+	}
+	a.AddrStd.Address[31] = zzvrt.NondetByte("last")
+	b, err := a.MarshalJSON()
+	zzvrt.Assert("marshal-ok", err == nil)
+	var y MsgAddress
+	err = y.UnmarshalJSON(b)
+	zzvrt.Assert("unmarshal-ok", err == nil)
+	zzvrt.Assert("same-kind", y.SumType == "AddrStd")
+	zzvrt.Assert("same-workchain", y.AddrStd.WorkchainId == a.AddrStd.WorkchainId)
+	zzvrt.Assert("same-account", y.AddrStd.Address == a.AddrStd.Address)
+	zzvrt.Assert("no-anycast", !y.AddrStd.Anycast.Exists)
+	zzvrt.Cover("negative-workchain", a.AddrStd.WorkchainId < 0)
+	zzvrt.ObserveInt("wc", int(y.AddrStd.WorkchainId))
+}
